@@ -18,9 +18,10 @@ import PromModel.Suites.IntervalsSuite
                                           block 0 is then the head range as its index/chunk/tombstone
                                           readers show it (printed by the harness)                       → result
   result:
-    block <series>/<chunks>/<samples>/<floats>/<hists> {<labels> <samples> <m/M/n,…>}*   meta.Stats, then
-          per series (block querier order) the samples of `NewBlockQuerier` and the chunk metas with
-          sample counts of `NewBlockChunkQuerier`
+    block <series>/<chunks>/<samples>/<floats>/<hists> {<labels> <samples> <m/M/n/f/l,…>}*   meta.Stats, then
+          per series (block querier order) the samples of `NewBlockQuerier` and, per chunk of
+          `NewBlockChunkQuerier`, the meta range, `NumSamples()` and the first/last timestamp decoded from
+          the chunk itself (`-` if it decodes to nothing)
     empty | err | panic
 
   The model reads `blk`/`ser` and the final op. The judge reads the ground truth: `blk`/`ser` for block
@@ -49,7 +50,7 @@ def parseOp (line : String) : Op :=
     | _, _ => .bad
   | ["ser", b, l, cs, ts] =>
     match b.toNat?, parseLabels? l, parseChunks? cs, Intervals.parseSet? ts with
-    | some b, some l, some cs, some ts => .ser b ⟨l, cs, ts⟩
+    | some b, some l, some cs, some ts => .ser b ⟨l, cs.map Chunk.decode, ts⟩
     | _, _, _, _ => .bad
   | ["hs", l, xs] =>
     match parseLabels? l, parseSamples? xs with
@@ -73,7 +74,11 @@ def parseOp (line : String) : Op :=
 def addSeries (blocks : List Block) (i : Nat) (s : Series) : List Block :=
   blocks.zipIdx.map fun (b, j) => if j = i then { b with series := b.series ++ [s] } else b
 
-def showMeta (c : Chunk) : String := s!"{c.mint}/{c.maxt}/{c.samples.length}"
+def showMeta (c : Chunk) : String :=
+  s!"{c.mint}/{c.maxt}/{c.samples.length}/{showOptT c.samples.head?}/{showOptT c.samples.getLast?}"
+
+/-- the samples a querier over the written series decodes (hints as the chunk iterators hand them out) -/
+def csDecoded (s : CS) : List Sample := s.2.flatMap fun c => decodeView c.samples
 
 def showMetas (cs : List Chunk) : String :=
   if cs.isEmpty then "-" else ",".intercalate (cs.map showMeta)
@@ -85,7 +90,7 @@ def renderResult : Result → String
   | .block o =>
     let st := o.stats
     s!"block {st.numSeries}/{st.numChunks}/{st.numSamples}/{st.numFloat}/{st.numHist}" ++
-      String.join (o.series.map fun s => s!" {showLabels s.1} {showSamples (csSamples s)} {showMetas s.2}")
+      String.join (o.series.map fun s => s!" {showLabels s.1} {showSamples (csDecoded s)} {showMetas s.2}")
 
 def runOps : List Block → List Op → List String
   | _, [] => []
@@ -107,10 +112,18 @@ def model (ops : List String) : List String := runOps [] (ops.map parseOp)
 
 /-! ### the property statement as an oracle -/
 
+structure OMeta where
+  mint : Int
+  maxt : Int
+  n : Nat
+  first : Option Int
+  last : Option Int
+deriving Repr, Inhabited
+
 structure OSeries where
   labels : Labels
   samples : List Sample
-  metas : List (Int × Int × Nat)
+  metas : List OMeta
 deriving Repr, Inhabited
 
 inductive Out
@@ -121,12 +134,12 @@ inductive Out
   | bad
 deriving Repr, Inhabited
 
-def parseMeta? (s : String) : Option (Int × Int × Nat) :=
+def parseMeta? (s : String) : Option OMeta :=
   match s.splitOn "/" with
-  | [a, b, c] => do pure (← a.toInt?, ← b.toInt?, ← c.toNat?)
+  | [a, b, c, f, l] => do pure ⟨← a.toInt?, ← b.toInt?, ← c.toNat?, ← parseOptT? f, ← parseOptT? l⟩
   | _ => none
 
-def parseMetas? (s : String) : Option (List (Int × Int × Nat)) :=
+def parseMetas? (s : String) : Option (List OMeta) :=
   if s = "-" then some [] else (s.splitOn ",").mapM parseMeta?
 
 def parseOSeries : List String → Option (List OSeries)
@@ -177,15 +190,18 @@ def truthSamples (tr : Truth) (l : Labels) : List Sample :=
   (tr.filter fun p => p.1 == l).flatMap (·.2)
 
 /-- split the sample list along the chunk sample counts and check each chunk's meta against its content -/
-def checkChunks : List (Int × Int × Nat) → List Sample → Option Int → Option String
+def checkChunks : List OMeta → List Sample → Option Int → Option String
   | [], [], _ => none
   | [], _ :: _, _ => some "chunk-counts-short"
-  | (a, b, n) :: ms, xs, prevMax =>
+  | ⟨a, b, n, f, l⟩ :: ms, xs, prevMax =>
     let mine := xs.take n
     if n = 0 ∨ mine.length ≠ n then some s!"chunk-count mint={a} maxt={b} n={n}"
     else if (match prevMax with | some p => decide (a ≤ p) | none => false) then some s!"chunk-overlap mint={a} maxt={b}"
     else if a > b then some s!"chunk-range mint={a} maxt={b}"
     else if (mine.head?.map (·.t)) ≠ some a ∨ (mine.getLast?.map (·.t)) ≠ some b then some s!"chunk-meta mint={a} maxt={b} n={n}"
+    -- the chunk decoded on its own: its first/last timestamps are its meta range
+    else if f ≠ some a ∨ l ≠ some b then
+      some s!"chunk-meta-vs-decoded mint={a} maxt={b} first={(f.map toString).getD "-"} last={(l.map toString).getD "-"}"
     else checkChunks ms (xs.drop n) (some b)
 
 def checkSeries (tr : Truth) (o : OSeries) : Option String :=
@@ -198,7 +214,7 @@ def checkSeries (tr : Truth) (o : OSeries) : Option String :=
     | none, some t => some s!"samples-invented series={showLabels o.labels} t={t}"
     | none, none => some s!"samples-order series={showLabels o.labels}"
   else
-    match o.samples.find? (fun x => !cand.contains x) with
+    match o.samples.find? (fun x => !admissibleDecoded cand x) with
     | some x => some s!"value series={showLabels o.labels} sample={showSample x}"
     | none =>
       match checkChunks o.metas o.samples none with
